@@ -1,7 +1,7 @@
 (** C11 — the (N)RPN scanner reports exactly the justified messages.
     Only the property theorems; each closed by [exact <lemma>]. *)
 From Verif Require Import Base.Prelude Model.ShortMsg Model.CC14 Model.Nrpn Spec.MidiTable
-  Spec.NrpnSpec Proofs.NrpnProofs.
+  Spec.NrpnSpec Proofs.NrpnProofs Proofs.RepeatStable.
 
 (** for every finite history of valid feeds and resets (any length), the scanner never panics and
     its outputs are, operation by operation, those of the history-level specification *)
@@ -44,6 +44,15 @@ Theorem C11_example :
      Some (mkPN 1 37 7 true false DataEntry); None; None].
 Proof. vm_compute. reflexivity. Qed.
 
+(** feeding one message again and again: after its first application the scanner is at a fixed
+    point of that message -- every further application returns the same state and the same
+    output, however often it is repeated (what "the previous operation again n times" of the
+    correspondence records relies on) *)
+Theorem C11_repeated_feed_is_stable : forall s b s1 o1 s2 o2,
+  pn_feed s b = Ok (s1, o1) -> pn_feed s1 b = Ok (s2, o2) -> pn_feed s2 b = Ok (s2, o2).
+Proof. exact pn_feed_repeats. Qed.
+
 Print Assumptions C11_scanner_exact.
+Print Assumptions C11_repeated_feed_is_stable.
 Print Assumptions C11_spec_reads.
 Print Assumptions C11_example.
